@@ -130,3 +130,21 @@ Definition history_case := (Q * list hstep)%type.
 Definition history_ok (K : sconsts) (c : history_case) : bool :=
   let '(vcc, hs) := c in
   all2 hstep_ok hs (observations K (new_sensor vcc) (map hstep_op hs)).
+
+(* user-defined units whose callables may themselves call convert()
+   (re-entrant definitions): the definition list, convert(a, b, x), and what
+   the real code did: the log of EVERY callable application (nested
+   activations included) and the exact result *)
+Definition reent_case :=
+  (list (option nat * uspec) * nat * nat * Q * option (list (nat * bool) * Q))%type.
+Definition reent_ok (c : reent_case) : bool :=
+  let '(spec, a, b, x, r) := c in
+  match build_units spec with
+  | Val tbl =>
+      match r, trace_built tbl a b x, convert_built tbl a b x with
+      | Some (log, y), Val (ty, mlog), Val my =>
+          log_eqb log mlog && Qeq_bool y my && Qeq_bool y ty
+      | _, _, _ => false
+      end
+  | _ => false
+  end.
